@@ -18,7 +18,7 @@ import concurrent.futures as cf
 import vlib
 
 PID = 'C18'
-ALL_BODIES = ['ENCA', 'ENCB', 'ENCC', 'ENCD', 'ENCM', 'ENCH', 'ENCW', 'ENCQ', 'ENCP', 'ENCT', 'ENCS', 'DECA', 'DECB', 'DECF', 'DECH', 'DECL', 'DECR', 'VFA', 'VFB', 'VFF', 'VFC', 'VFL', 'VFR', 'VLAP', 'VLAQ']
+ALL_BODIES = ['ENCA', 'ENCB', 'ENCC', 'ENCD', 'ENCM', 'ENCH', 'ENCW', 'ENCQ', 'ENCP', 'ENMR', 'ENML', 'ENM6', 'ENM0', 'ENCT', 'ENCS', 'DECA', 'DECB', 'DECF', 'DECH', 'DECL', 'DECR', 'VFA', 'VFB', 'VFF', 'VFC', 'VFL', 'VFR', 'VLAP', 'VLAQ', 'CMT']
 CORE = ['ENCA', 'ENCB', 'DECA', 'DECB', 'DECF', 'VFA', 'VFB']
 BODY_DOC = {
     'ENCA': 'encoder stereo 44.1k VBR q0.4, 3x1024 samples', 'ENCB': 'encoder mono 8k, setup_managed+ctl+setup_init (bitrate managed)',
@@ -36,6 +36,9 @@ BODY_DOC = {
     'ENCH': 'encoder stereo 96 kHz VBR q0.5, 0.3 s (psy look-ups reach beyond the end of the ATH table)', 'ENCW': 'encoder mono 64 kHz VBR q0.5, 0.3 s',
     'ENCQ': 'encoder mono 44.1k whose last 4096 samples are a 2e-8 amplitude sine (end-of-stream LPC extrapolation takes its below-epsilon exit on non-zero data)',
     'ENCP': 'encoder mono 44.1k whose first 6144 samples are a 2e-8 amplitude sine (pre-extrapolation LPC takes the same exit)',
+    'ENMR': 'encoder stereo 44.1k ABR (vorbis_encode_init -1/96000/-1), right channel digital silence from the first sample', 'ENML': 'encoder stereo 44.1k managed 160000/112000/64000, left channel digital silence',
+    'ENM6': 'encoder 5.1 ABR 256000, LFE channel digital silence', 'ENM0': 'encoder mono ABR 64000, all digital silence',
+    'CMT': 'comments: add_tag with empty and non-empty values, add, query/query_count, commentheader_out, analysis_headerout, re-parse by headerin',
     'DECL': 'packet decoder on coupled stereo with a digitally silent LEFT channel (unused floor on one side of a coupled pair)',
     'DECR': 'packet decoder on coupled stereo with a digitally silent RIGHT channel, with synthesis_restart',
     'VFL': 'vorbisfile (ov_read_float) on the left-silent stream', 'VFR': 'vorbisfile (ov_read, pcm_seek_lap) on the right-silent stream',
@@ -166,7 +169,7 @@ def run_valgrind(exe, st, body, timeout=900):
 # ------------------------------------------------------------------------------------------------ main
 def plan_jobs(tier):
     pairs = [list(c) for c in itertools.combinations_with_replacement(CORE, 2)]
-    extra_pairs = [['ENCC', 'ENCA'], ['ENCD', 'ENCB'], ['DECH', 'DECB'], ['VFF', 'DECF'], ['VFC', 'VFA'], ['ENCC', 'VFC'], ['DECL', 'DECR'], ['VFL', 'VFR'], ['DECL', 'VFL'], ['ENCM', 'ENCD'], ['ENCS', 'ENCS'], ['ENCS', 'ENCA'], ['ENCS', 'DECB'], ['ENCW', 'ENCQ'], ['ENCH', 'DECA']]
+    extra_pairs = [['ENCC', 'ENCA'], ['ENCD', 'ENCB'], ['DECH', 'DECB'], ['VFF', 'DECF'], ['VFC', 'VFA'], ['ENCC', 'VFC'], ['DECL', 'DECR'], ['VFL', 'VFR'], ['DECL', 'VFL'], ['ENCM', 'ENCD'], ['ENCS', 'ENCS'], ['ENCS', 'ENCA'], ['ENCS', 'DECB'], ['ENCW', 'ENCQ'], ['ENCH', 'DECA'], ['ENMR', 'ENML'], ['CMT', 'ENM0']]
     triples = [['ENCA', 'DECA', 'VFB'], ['ENCB', 'DECF', 'VFA'], ['DECA', 'DECA', 'DECB']]
     jobs = []
     if tier == 'quick':
@@ -206,7 +209,7 @@ def plan_jobs(tier):
 def run(tier):
     chk = vlib.Check(PID, tier, 'model_checking')
     t0 = time.time()
-    deadline = t0 + float(os.environ.get('C18_DEADLINE_S') or (150 if tier == 'quick' else 22 * 60))   # C18_DEADLINE_S: override for measurements on an overloaded machine
+    deadline = t0 + float(os.environ.get('C18_DEADLINE_S') or (140 if tier == 'quick' else 22 * 60))   # C18_DEADLINE_S: override for measurements on an overloaded machine
     vlib.build('plain', 'tsan')
     exe = vlib.harness('plain', 'c18_sched')
     texe = vlib.harness('tsan', 'c18_sched', extra='-DC18_TSAN', wrap=False)
@@ -226,7 +229,7 @@ def run(tier):
 
 def _run(chk, tier, t0, deadline, exe, texe, st):
     fixed = st + ['deadline=%d' % int(deadline)]
-    side_budget = (deadline - time.time()) + (22 if tier == 'quick' else 150)     # TSan / valgrind side passes are killed this many seconds after the start,
+    side_budget = (deadline - time.time()) + (20 if tier == 'quick' else 150)     # TSan / valgrind side passes are killed this many seconds after the start,
     kill_at = time.time() + side_budget                                            # no matter how long they waited in the queue of the side pool
     left = lambda: max(2.0, kill_at - time.time())
     cov = chk.cov
@@ -237,7 +240,7 @@ def _run(chk, tier, t0, deadline, exe, texe, st):
     # (threads, repetitions per process, bodies, processes): every process start is a cold library (lazily built tables!)
     reps = 10 if tier == 'quick' else 15
     procs = 3 if tier == 'quick' else 5
-    tsan_base = [(16, reps, ALL_BODIES, procs), (8, reps, ['ENCA', 'ENCS', 'ENCW', 'ENCQ'], procs), (8, reps, ['DECF', 'VFF', 'DECA', 'VFA', 'DECL', 'VFR'], procs), (12, reps, ['ENCB', 'ENCD', 'ENCM', 'DECB', 'DECH', 'VFB', 'VFC'], procs)]
+    tsan_base = [(16, reps, ALL_BODIES, procs), (8, reps, ['ENCA', 'ENCS', 'ENCW', 'ENCQ'], procs), (8, reps, ['DECF', 'VFF', 'DECA', 'VFA', 'DECL', 'VFR'], procs), (12, reps, ['ENCB', 'ENCD', 'ENCM', 'ENMR', 'CMT', 'DECB', 'DECH', 'VFB', 'VFC'], procs)]
     if tier == 'thorough':
         tsan_base += [(16, reps, ['ENCA', 'ENCC', 'DECB', 'VFB'], procs), (2, 40, ['ENCA', 'DECB'], procs), (2, 40, ['DECA', 'DECA'], procs), (3, 40, ['VFA', 'DECA', 'ENCB'], procs)]
     tsan_cfgs = [(n, r, b) for n, r, b, k in tsan_base for _ in range(k)]
@@ -258,6 +261,10 @@ def _run(chk, tier, t0, deadline, exe, texe, st):
         stt, d, viol = kv(r)
         if c.startswith('solo'):
             b = c.split()[1]
+            if viol is not None:
+                vf = viol_fields(viol)
+                chk.violation(vf.get('key', f'solo_crash:{b}'), vf['text'], {'kind': 'solo', 'body': b})
+                continue
             if stt != 'ok':
                 mach.append(f'solo reference of {b} failed: {r[:200]}')
                 continue
@@ -291,7 +298,7 @@ def _run(chk, tier, t0, deadline, exe, texe, st):
     cov['bodies'] = {b: {'what': BODY_DOC[b], 'g1_steps': int(d['steps']), 'api_calls': int(d['api']), 'allocator_calls_inside_api': int(d['allocs']), 'nonzero_outputs': int(d['nonzero']), 'padded_packets': int(d.get('padded', 0)), 'tiny_encode_packets': int(d.get('tinypk', 0))} for b, d in solo.items()}
 
     # ---------------- scheduler exploration
-    jobs = plan_jobs(tier)
+    jobs = [j for j in plan_jobs(tier) if all(b in solo for b in j.bodies)]      # a body that does not complete alone is a violation already
     total_exec = 0
     total_trans = 0
     cut_any = False
